@@ -28,6 +28,7 @@ func init() {
 			{ID: "C16.5", Doc: "announce_peer arguments", Floor: 6, Run: c16r5},
 			{ID: "C16.6", Doc: "the lookup under the announce can stall and stop: every in-flight slot taken is given back (shared with C03.4)", Floor: 5, Run: c03r4},
 			{ID: "C16.8", Doc: "a reply cannot inherit another node's id or token from an earlier datagram: fresh decode target per datagram (shared with C07.7)", Floor: 1, Run: c07r7},
+			{ID: "C16.10", Doc: "address and token stay together in the closest set: Push stores the element it was given, key and data (shared with C02.4)", Floor: 6, Run: c02r4},
 			{ID: "C16.9", Doc: "Close() sets the close event unconditionally and without waiting (the deliveries it releases are what the traversal's Stopped() waits for)", Floor: 1, Run: c16CloseNeverWaits},
 			{ID: "C16.7", Doc: "replies are matched to queries by full address and transaction id, so the token kept for a node is that node's (shared with C07.1)", Floor: 6, Run: c07r1},
 		},
